@@ -7,7 +7,8 @@ Require Import ExtrOcamlBasic.
 From JsonSyntax Require Import Base.Prelude Base.Value Base.Unicode Model.Kind Spec.KindSpec
   Model.Parser Model.EntryPoints Model.Compare Model.Object Model.CodeMapNav
   Model.Printer Spec.Minimal Spec.Layout Model.Unordered Spec.Multimap
-  Base.Float64 Spec.EcmaNumber Spec.Jcs Model.Canon.
+  Base.Float64 Spec.EcmaNumber Spec.Jcs Model.Canon
+  Spec.NumSpelling Spec.SerdeData Spec.SerdeJsonValue Spec.SerdeRoundTrip Model.SerdeValue.
 
 Extraction Language OCaml.
 Set Extraction KeepSingleton.
@@ -45,4 +46,8 @@ Extraction "model.ml"
   m_remove_unique m_get_or_insert_with m_set_value_at m_extend m_from_vec
   (* canonicalization *)
   canonicalize canon_number jcs read_decimal nearest_double ecma_to_string sf_bits sf_of_bits
-  sf_is_finite utf16_cmp key_lt.
+  sf_is_finite utf16_cmp key_lt
+  (* serde: Value's own impls (C17) and the serde_json bridge (C18) *)
+  Z.opp Z.abs_N Z.ltb Z.to_N
+  to_value from_value from_text from_sj into_sj ser_spec de_ok detour_ok collapse nodup_keysb
+  nums64 wf_nums wf_sj sj_eqb K1 K2 K3 K4 K5 K6 dbl valid_number is_int64 num_pres.
